@@ -26,6 +26,11 @@ FieldSeqs(form) == { << [m |-> "name", n |-> "a"], [m |-> "ty", t |-> Ty1(form)]
                      << [m |-> "type_name", tn |-> "T1"], [m |-> "ty", t |-> TyPh(form)] >>,
                      << [m |-> "name", n |-> "a"], [m |-> "ty", t |-> TyPh(form)] >>,
                      << [m |-> "name", n |-> "b"], [m |-> "ty", t |-> TyPh(form)] >> \o SetToSeq(DocCalls(form)),      \* a DOCUMENTED phantom member
+                     \* the declared type name is opaque text: a real member whose NAME spells a (path-qualified) marker stays,
+                     \* a marker whose name spells something else goes
+                     << [m |-> "name", n |-> "a"], [m |-> "type_name", tn |-> "core::marker::PhantomData<T>"], [m |-> "ty", t |-> Ty1(form)] >>,
+                     << [m |-> "type_name", tn |-> "(u32, marker::PhantomDataTag)"], [m |-> "ty", t |-> Ty2(form)] >>,
+                     << [m |-> "name", n |-> "b"], [m |-> "type_name", tn |-> "u8"], [m |-> "ty", t |-> TyPh(form)] >>,
                      << [m |-> "name", n |-> "a"] >>,            \* no type: never accepted
                      << >> }
 \* ... and, as the FIRST field of a named / unnamed set, EVERY FieldBuilder call sequence of up to three calls over a
